@@ -1227,6 +1227,42 @@ static void do_tagged_destroy_pattern(State& S) {
   hmix(S, 0xE700 + (uint64_t)tag);
 }
 
+// A heap that can be destroyed (mi_heap_new) needs fresh segments while a terminated thread's segment waits for adoption: three 12 MiB blocks (at most two fit a segment)
+// from the destroyable heap, then mi_heap_destroy.  Exactly the heap's own blocks die: the terminated thread's blocks keep their contents and are not handed out again.
+// (Random histories almost never make a first-class heap ask for a fresh segment -- all heaps of a thread share its segments; added for seeded change C09-r7-3.)
+static void do_destroyable_adoption_pattern(State& S) {
+  vf_cur_what = "destroyable heap adoption pattern";
+  const size_t cls = (chance(S, 1, 2) ? 16 + (size_t)below(S, 400) : 500 + (size_t)below(S, 6000));
+  std::vector<ThreadBlock> out;
+  const size_t cnt = 8 + (size_t)below(S, 120);
+  try {
+    std::thread t([&]() { for (size_t i = 0; i < cnt; i++) { void* p = mi_malloc(cls); if (p) { ThreadBlock tb; tb.p = p; tb.n = cls; tb.zero = false; out.push_back(tb); } } });
+    t.join();
+  } catch (const std::system_error& e) { vf_trip("harness", "", "cannot create a thread: %s", e.what()); }
+  std::vector<vf::Blk*> theirs;
+  for (auto& tb : out) { vf::Blk* b = accept_foreign(S, tb.p, tb.n); if (b) theirs.push_back(b); }
+  S.n_thread_exits++;
+  mi_heap_t* D = mi_heap_new();
+  if (D != nullptr) {
+    HeapEnt he; he.h = D; he.alive = true; S.heaps.push_back(he);
+    const int dhi = (int)S.heaps.size() - 1;
+    for (int i = 0; i < 3; i++) { void* q = mi_heap_malloc(D, 12 * MiB); if (q != nullptr) memset(q, 0x3c, 64); }
+    for (int i = 0; i < 30; i++) { void* q = mi_heap_malloc(D, cls); if (q != nullptr) memset(q, 0x3d, cls); }
+    vf_cur_what = "heap_destroy (after the heap needed fresh segments)";
+    mi_heap_destroy(D);
+    S.heaps[dhi].alive = false;
+    S.n_heap_destroy++;
+    check_errors(S, "heap_destroy (after the heap needed fresh segments)");
+  }
+  for (vf::Blk* b : theirs) S.sm.verify(b, "block of a terminated thread after mi_heap_destroy of a heap that needed fresh segments", SIZE_MAX, "C09,C10");
+  std::vector<vf::Blk*> probe;
+  for (int i = 0; i < 300; i++) { vf::Blk* b = do_alloc(S, EP_malloc, cls); if (b) probe.push_back(b); }
+  for (vf::Blk* b : theirs) S.sm.verify(b, "block of a terminated thread after re-allocation of its size class", SIZE_MAX, "C09,C10");
+  for (vf::Blk* b : probe) do_free(S, b);
+  for (vf::Blk* b : theirs) { forget_foreign(S, b); do_free(S, b); }
+  hmix(S, 0xE800 + cnt);
+}
+
 // ------------------------------------------------------------------------------------------------
 // purge range callback (C13): a purge / decommit must never intersect a live block
 // ------------------------------------------------------------------------------------------------
@@ -1362,6 +1398,7 @@ void history_step(State& S) {
   if (walkprof && (S.op_index % 160) == 80) do_walk_pattern(S);
   if (walkprof && S.cfg.threads && S.cfg.abandon_ok && (S.op_index % 400) == 200) do_abandoned_pattern(S);
   if (S.cfg.profile == "heaps" && S.cfg.threads && !S.cfg.abandon_ok && (S.op_index % 500) == 250) do_tagged_destroy_pattern(S);
+  if ((S.cfg.profile == "heaps" || S.cfg.profile == "general") && S.cfg.threads && !S.cfg.abandon_ok && (S.op_index % 900) == 450) do_destroyable_adoption_pattern(S);
   if (S.cfg.threads && S.cfg.abandon_ok && (S.op_index % 600) == 300) do_force_abandon_pattern(S);
   if ((S.cfg.profile == "general" || S.cfg.profile == "walk") && S.op_index > 0 && (S.op_index % 1500) == 700) do_full_tiny_page_pattern(S);
   if (S.cfg.profile == "aligned" && (S.op_index % 250) == 125) do_small_aligned_pattern(S);
